@@ -153,7 +153,7 @@ func (p *Changes) DirAdded(name string) {
 		if err != nil || d.IsDir() {
 			return err
 		}
-		entry, _ = filepath.Rel(dir, entry)
+		entry, _ = filepath.Rel(p.root, entry)
 		entry = filepath.ToSlash(entry)
 		if !p.Ignore(entry, false) {
 			p.FileChanged(entry)
